@@ -133,3 +133,12 @@ func Class(r *rules.NetworkRule) string {
 		return "block"
 	}
 }
+
+// LinesEOL joins lines with the given line terminator (also after the last).
+func LinesEOL(ls []string, eol string) string {
+	if len(ls) == 0 {
+		return ""
+	}
+
+	return strings.Join(ls, eol) + eol
+}
